@@ -482,6 +482,38 @@ def gen_nested_pow_expr(rng):
     return rng.choice([e, ("mul", e, y), ("mul", y, e), ("sub", e, y)])
 
 
+def gen_fraction_pair(rng):
+    """pairs with integer division by a literal d whose difference over the rationals is a constant k/d: non-integer
+    (d does not divide k: the code must NOT claim never-equal), a non-zero integer, or symbolic"""
+    d = rng.choice([2, 2, 3, 3, 4, 5])
+    e = rng.choice([("var", rng.randrange(3)), ("var", rng.randrange(3)),
+                    ("add", ("var", 0), ("var", 1)), ("mul", ("lit", rng.choice([2, 3])), ("var", rng.randrange(3))),
+                    ("sub", ("var", 2), ("var", 0)), ("pow", ("var", rng.randrange(3)), 2)])
+    r = rng.random()
+    if r < 0.6:
+        k = rng.choice([x for x in range(1, 3 * d) if x % d != 0])
+        kind = "frac-noninteger"
+    elif r < 0.85:
+        k = d * rng.choice([1, 2])
+        kind = "frac-integer"
+    else:
+        k, kind = None, "frac-symbolic"
+    off = ("lit", k) if k is not None else ("var", rng.randrange(3))
+    D = ("lit", d)
+    form = rng.randrange(4)
+    if form == 0:        # e/d   vs  (e+k)/d
+        lhs, rhs = ("div", e, D), ("div", ("add", e, off), D)
+    elif form == 1:      # (d*e+k)/d  vs  e
+        lhs, rhs = ("div", ("add", ("mul", D, e), off), D), e
+    elif form == 2:      # e/d + c  vs  (e+k)/d
+        lhs, rhs = ("add", ("div", e, D), ("lit", rng.choice([1, 2]))), ("div", ("add", e, off), D)
+    else:                # (e-k)/d  vs  e/d
+        lhs, rhs = ("div", ("sub", e, off), D), ("div", rewrite(rng, e), D)
+    if rng.random() < 0.5:
+        lhs, rhs = rhs, lhs
+    return lhs, rhs, kind
+
+
 def gen_minmax_pair(rng):
     """pairs whose verdict hinges on MIN/MAX being translated to Min/Max"""
     e = gen_poly(rng, rng.randint(1, 4))
